@@ -675,7 +675,7 @@ impl Property for C05 {
     const ID: &'static str = "C05";
     type Case = Case;
     fn rule() -> String {
-        "cases = (run-time type description, document). Types from a schema grammar (bool / int / string / option / unit / sequence / tuple / tuple struct / newtype / map / struct with and without deny_unknown_fields / enum with all four variant kinds, depth <= 4); the document is first generated from the type and a value (plain scalars of three unambiguous lexical classes; enum values in bare, mapping and tagged notation; block and flow), then perturbed at one random node by one of 20 perturbations (null / scalar / sequence / mapping / bare variant / variant mapping / two-variant mapping in place, extra / missing / first-missing element, extra / missing entry, renamed key, extra variant entry, sequence<->mapping, quoted scalar, scalar / sequence payload under a kept `!Variant` tag) or left intact. Oracle: a reference interpreter over the document AST (self-checked against the raw parser events) and the type, written from DESIGN.md Appendix A, answers Must(pattern) / MustErr / Free(pattern): an accepted value must match the position-faithful pattern (holes only where the documentation is silent), a MustErr document must be rejected, a Must document must be accepted. Non-trivial: perturbed documents, and matching documents with an enum or tuple inside a sequence / map.".into()
+        "cases = (run-time type description, document). Types from a schema grammar (bool / int / string / option / unit / sequence / tuple / tuple struct / newtype / map / struct with and without deny_unknown_fields / enum with all four variant kinds, depth <= 4); the document is first generated from the type and a value (plain scalars of three unambiguous lexical classes; enum values in bare, mapping and tagged notation; block and flow), then perturbed at one random node by one of 20 perturbations (null / scalar / sequence / mapping / bare variant / variant mapping / two-variant mapping in place, extra / missing / first-missing element, extra / missing entry, renamed key, extra variant entry, sequence<->mapping, quoted scalar, scalar / sequence payload under a kept `!Variant` tag) or left intact. Oracle: a reference interpreter over the document AST (self-checked against the raw parser events) and the type, written from DESIGN.md Appendix A, answers Must(pattern) / MustErr / Free(pattern): an accepted value must match the position-faithful pattern (holes only where the documentation is silent), a MustErr document must be rejected, a Must document must be accepted. Every document is also read through from_str / from_slice / from_reader (same outcome as with_deserializer_from_str) and through read / from_multiple (one document gives at most one item, nothing follows an error, the item is the reference outcome). Non-trivial: perturbed documents, and matching documents with an enum or tuple inside a sequence / map.".into()
     }
     fn assumptions() -> Vec<String> {
         vec![
